@@ -277,6 +277,18 @@ class Sectionable(BaseObject):
                                  "one of its own sub-Sections.")
             node = node.parent
 
+    def _detach_from_other_parent(self, obj):
+        """
+        An object lives in one child-list only: adding an object that is still
+        a child of another Section or Document moves it here, like assigning
+        its parent does. Called once the addition can no longer be refused.
+
+        :param obj: the Section or Property that is about to be added to self.
+        """
+        old_parent = getattr(obj, "_parent", None)
+        if old_parent is not None and old_parent is not self:
+            old_parent.remove(obj)
+
     def insert(self, position, section):
         """
         Insert a Section at the child-list position. A ValueError will be raised,
@@ -291,6 +303,7 @@ class Sectionable(BaseObject):
                 raise ValueError("Section with name '%s' already exists." % section.name)
 
             self._refuse_own_ancestor(section)
+            self._detach_from_other_parent(section)
             self._sections.insert(position, section)
             section._parent = self
         else:
@@ -305,6 +318,9 @@ class Sectionable(BaseObject):
         from odml.section import BaseSection
         if isinstance(section, BaseSection):
             self._refuse_own_ancestor(section)
+            if section.name in self._sections:
+                raise KeyError("Object with the same name already exists! " + str(section))
+            self._detach_from_other_parent(section)
             self._sections.append(section)
             section._parent = self
         elif isinstance(section, Iterable) and not isinstance(section, str):
